@@ -10,6 +10,7 @@
 -/
 import PyGqlModel.Lemmas.RegistryFrame
 import PyGqlModel.Generated.HeapCfg
+import PyGqlModel.Props.C14_config
 
 set_option linter.unusedSimpArgs false
 set_option linter.unusedVariables false
@@ -115,9 +116,9 @@ theorem clone_registries_witness_deep :
 example : RegsIn hW srcW := ⟨by decide, by decide⟩
 
 /-- the variant in the working tree (re-extracted on every run) -/
-theorem current_clone_frames_source_registries (hd : PyGql.Generated.HeapCfg.currentCfg.cloneRegsDeep = true) :
+theorem current_clone_frames_source_registries :
     CloneFramesSourceRegistries PyGql.Generated.HeapCfg.currentCfg.cloneRegsDeep := by
-  rw [hd]; exact clone_frames_source_registries
+  rw [cur_cloneRegsDeep]; exact clone_frames_source_registries
 
 /-! ### every derivation succeeds (T5, T6) and `extend_schema` keeps the registries (T8) -/
 
@@ -162,9 +163,8 @@ theorem clone_registries_total_refuted_unfiltered : ¬ CloneRegistriesTotal { Cf
   decide
 
 /-- the variant in the working tree -/
-theorem current_clone_registries_total (hf : PyGql.Generated.HeapCfg.currentCfg.cloneRegsFiltered = true)
-    (hv : PyGql.Generated.HeapCfg.currentCfg.cloneRegsByValue = true) : CloneRegistriesTotal PyGql.Generated.HeapCfg.currentCfg :=
-  clone_registries_total _ hf hv
+theorem current_clone_registries_total : CloneRegistriesTotal PyGql.Generated.HeapCfg.currentCfg :=
+  clone_registries_total _ cur_cloneRegsFiltered cur_cloneRegsByValue
 
 /-- FULL statement: the schema `extend_schema` returns shows the registry entries of its source (an extension adds fields and
     never removes one: every entry still names a field) -/
